@@ -312,3 +312,35 @@ func VerifH_C08_deflate_container() {
 	vrt.Assert(verifEq(back, data), "reader-deflate-roundtrip")
 	vrt.Covered("deflate-done")
 }
+
+// deflate on chunks around the inflater's 32 KiB window: a payload of n bytes (forked over 32767..40000) that starts
+// with 6000 incompressible bytes (so the stream is several KiB long) and continues with a constant, encoded at a
+// forked level, must come back complete from both decoders. The payload is concrete (the compressor's hash tables
+// over symbolic bytes are out of reach); the forks are the decision inputs.
+func VerifH_C08_deflate_window_thorough() {
+	vrt.LoopBound(3000000)
+	n := []int{32767, 32768, 32769, 33000, 40000}[vrt.Choice(5)]
+	level := []int{1, 6, 9}[vrt.Choice(3)]
+	data := make([]byte, n)
+	x := uint32(12345)
+	for i := 0; i < 6000; i++ {
+		x = x*1664525 + 1013904223
+		data[i] = byte(x >> 24)
+	}
+	for i := 6000; i < n; i++ {
+		data[i] = 7
+	}
+	f := NewGZIPFilter(level)
+	enc, err := f.Apply(data)
+	vrt.AssertNoErr(err, "deflate-apply-ok")
+	dec, err := f.Remove(enc)
+	vrt.AssertNoErr(err, "deflate-remove-ok")
+	vrt.Assert(len(dec) == n && verifEq(dec, data), "deflate-roundtrip")
+	p := NewFilterPipeline()
+	p.AddFilter(f)
+	back, err := verifReaderPipeline(p).ApplyFilters(enc)
+	vrt.AssertNoErr(err, "reader-decodes-deflate")
+	vrt.Assert(len(back) == n, "reader-deflate-length")
+	vrt.Assert(verifEq(back, data), "reader-deflate-roundtrip")
+	vrt.Covered("deflate-window-done")
+}
